@@ -62,6 +62,13 @@ theorem evalHashList_reh (H : PyHash) (ts : List HTerm) :
   | nil => rfl
   | cons t ts ih => simp [evalHashList, evalHash, ih]
 
+theorem evalHashList_map (H : PyHash) (f : HTerm → HTerm) (g : Int → Int)
+    (hf : ∀ t, evalHash H (f t) = g (evalHash H t)) (ts : List HTerm) :
+    evalHashList H (ts.map f) = (evalHashList H ts).map g := by
+  induction ts with
+  | nil => rfl
+  | cons t ts ih => simp [evalHashList, hf, ih]
+
 theorem isMissing_congr {v w : Val} (h : eq v w = true) : isMissing v = isMissing w := by
   cases v <;> cases w <;> simp [eq] at h <;> try rfl
   rename_i a b
@@ -114,12 +121,6 @@ mutual
     | list s xs =>
       cases y with
       | list t ys =>
-        cases s with
-        | false => simp [hashTerm] at h1
-        | true =>
-        cases t with
-        | false => simp [hashTerm] at h2
-        | true =>
         simp only [hashTerm] at h1 h2
         cases hxs : hashList xs with
         | error e => simp [hxs] at h1
@@ -129,8 +130,10 @@ mutual
             simp [hxs] at h1; simp [hys] at h2; subst h1; subst h2
             simp only [comparable] at hx hy
             simp only [eq] at he
-            simp only [evalHash, evalHashList, evalHashList_reh,
-              hashList_congr ok hH num xs ys t1 t2 hx hy he hxs hys]
+            have e := hashList_congr ok hH num xs ys t1 t2 hx hy he hxs hys
+            simp only [evalHash, evalHashList]
+            rw [evalHashList_map H (HTerm.reh ∘ HTerm.reh) (H.int ∘ H.int) (fun t => rfl),
+              evalHashList_map H (HTerm.reh ∘ HTerm.reh) (H.int ∘ H.int) (fun t => rfl), e]
       | _ => simp [eq] at he
     | tuple xs =>
       cases y with
@@ -144,17 +147,13 @@ mutual
             simp [hxs] at h1; simp [hys] at h2; subst h1; subst h2
             simp only [comparable] at hx hy
             simp only [eq] at he
-            simp only [evalHash, hash_tuple hH num xs ys t1 t2 hx hy he hxs hys]
+            have e := hash_tuple hH num xs ys t1 t2 hx hy he hxs hys
+            simp only [evalHash]
+            rw [evalHashList_reh, evalHashList_reh, e]
       | _ => simp [eq] at he
     | dict s xs =>
       cases y with
       | dict t ys =>
-        cases s with
-        | false => simp [hashTerm] at h1
-        | true =>
-        cases t with
-        | false => simp [hashTerm] at h2
-        | true =>
         simp only [hashTerm] at h1 h2
         cases hxs : hashItems xs with
         | error e => simp [hxs] at h1
@@ -256,6 +255,36 @@ mutual
                   · simp only [Bool.false_eq_true, if_false, evalHashList, evalHash]
                     rw [e1, e2, hH.atom_congr k k' hk]
                   · simpa using e2
+end
+
+/-! ### `pg.hash` never raises (fix F16) -/
+
+mutual
+  theorem hashTerm_total (x : Val) : ∃ t, hashTerm x = .ok t := by
+    cases x with
+    | atom a => exact ⟨_, rfl⟩
+    | list s xs => obtain ⟨ts, h⟩ := hashList_total xs; simp only [hashTerm, h]; exact ⟨_, rfl⟩
+    | tuple xs => obtain ⟨ts, h⟩ := hashList_total xs; simp only [hashTerm, h]; exact ⟨_, rfl⟩
+    | dict s kvs => obtain ⟨ts, h⟩ := hashItems_total kvs; simp only [hashTerm, h]; exact ⟨_, rfl⟩
+    | obj c kvs => obtain ⟨ts, h⟩ := hashItems_total kvs; simp only [hashTerm, h]; exact ⟨_, rfl⟩
+  termination_by structural x
+  theorem hashList_total (xs : List Val) : ∃ ts, hashList xs = .ok ts := by
+    cases xs with
+    | nil => exact ⟨_, rfl⟩
+    | cons x xs =>
+      obtain ⟨t, h1⟩ := hashTerm_total x
+      obtain ⟨ts, h2⟩ := hashList_total xs
+      simp only [hashList, h1, h2]; exact ⟨_, rfl⟩
+  termination_by structural xs
+  theorem hashItems_total (xs : List (Atom × Val)) : ∃ ts, hashItems xs = .ok ts := by
+    cases xs with
+    | nil => exact ⟨_, rfl⟩
+    | cons p xs =>
+      obtain ⟨k, v⟩ := p
+      obtain ⟨t, h1⟩ := hashTerm_total v
+      obtain ⟨ts, h2⟩ := hashItems_total xs
+      simp only [hashItems, h1, h2]; exact ⟨_, rfl⟩
+  termination_by structural xs
 end
 
 end Pg.C06
